@@ -33,6 +33,7 @@ func checkC20(c *Check) {
 	c20Lines(c)
 	c20ImportBudget(c)
 	c20EnvCleanup(c)
+	c20MacroBudget(c)
 	_ = p
 }
 
@@ -1281,4 +1282,64 @@ func c20EnvCleanup(c *Check) {
 	if n == 0 {
 		c.Fail("R7", "envvars-cleanup:passes", token.NoPos, "undecided: no clean-up pass (regexp ReplaceAllString) found in the configuration parser")
 	}
+}
+
+
+// R3c: a macro may be defined from references of other macros; `$(m1) = $(m0) $(m0)`, `$(m2) = $(m1) $(m1)`, … doubles
+// the argument list with every line – forty lines are 2^40 arguments: Read does not return and memory runs out. Where
+// expandMacros splices a macro's (multi-valued) replacement into an argument list, the resulting length is compared
+// with a bound before the next argument is processed.
+func c20MacroBudget(c *Check) {
+	c.Rule("R3c", "macro expansion is bounded in total: after a macro's replacement list is spliced into the arguments (append with a spread), every path to the next iteration passes a comparison of the list's length, whose failure returns an error", 1)
+	r := c.need("R3c", cfgparserRel, "parseContext", "expandMacros")
+	if r == nil {
+		return
+	}
+	info := r.Info
+	n := 0
+	msg := ""
+	for _, pt := range r.F.Points() {
+		as, ok := pt.Node().(*ast.AssignStmt)
+		if !ok || len(as.Lhs) != 1 || len(as.Rhs) != 1 {
+			continue
+		}
+		call, ok := ast.Unparen(as.Rhs[0]).(*ast.CallExpr)
+		if !ok || !call.Ellipsis.IsValid() {
+			continue
+		}
+		if id, isID := call.Fun.(*ast.Ident); !isID || id.Name != "append" {
+			continue
+		}
+		lst := objOf(info, as.Lhs[0])
+		if lst == nil {
+			continue
+		}
+		n++
+		guards := func(b *cfgBlock, i int) bool {
+			cond, isCase := r.F.Cond(b)
+			if cond == nil || isCase {
+				return false
+			}
+			hit := false
+			ast.Inspect(cond, func(x ast.Node) bool {
+				if lc, ok := x.(*ast.CallExpr); ok && len(lc.Args) == 1 {
+					if id, isID := lc.Fun.(*ast.Ident); isID && id.Name == "len" && objOf(info, lc.Args[0]) == lst {
+						hit = true
+					}
+				}
+				return true
+			})
+			return hit
+		}
+		next := func(q Pt) bool {
+			if q.I != 0 {
+				return false
+			}
+			return q.B.Kind == kindRangeLoop || q.B.Kind == kindForLoop || q.B.Kind == kindRangeDone || q.B.Kind == kindForDone
+		}
+		if path, f := r.F.Reach(Query{From: []Pt{pt}, Target: next, AvoidEdge: guards}); f {
+			msg = "a macro's replacement list is spliced into the arguments and the next argument is processed without the length of the list having been compared with any bound: `$(m1) = $(m0) $(m0)` … doubles the list per line, a 900-byte input makes Read allocate 2^40 arguments (it neither returns nor fails): " + r.F.Describe(path)
+		}
+	}
+	c.Hold("R3c", "expandMacros:bounded-splice", r.FI.Decl.Pos(), msg == "" && n > 0, msg)
 }
